@@ -219,6 +219,31 @@ def conditional(c: int, kind: int, nest: int) -> bool:
         raise
 
 
+def dotf_locals(n: int, m: int, form: int) -> bool:
+    """
+    pre: 0 <= n <= 3 and 0 <= form <= 2
+    post: _
+    """
+    # recursion through .f: every level has its own parameters AND its own declared locals, exactly like recursion by name
+    enter()
+    try:
+        _reset()
+        K['A'] = n; K['B'] = m
+        K('t::77')
+        if form == 0:
+            got = K('{[a];a::x+B;:[x>0;.f(x-1);0];a}(A)'); want = n + m
+        elif form == 1:
+            got = K('{[a t];a::x;t::y;:[x>0;.f(x-1;y+1);0];(100*a)+t}(A;B)'); want = 100 * n + m
+        else:
+            K('f::{[a];a::x+B;:[x>0;.f(x-1);0];a}')
+            got = K("f'[;A;A]"); want = [n + m, n + m]
+        return verdict(W.canon(got) == W.canon(want) and W.canon(K('t')) == ("i", 77) and len(K._context._context) == 3)
+    except Exception as e:
+        if type(e).__name__ == "OutsideModel":
+            cut(str(e)[:60]); return True
+        raise
+
+
 _T = {"log": []}
 
 
@@ -280,5 +305,6 @@ def obligations(tier):
     for pi in range(len(FAIL_PROGS)):
         obs.append({"name": "failure part-way %s" % FAIL_PROGS[pi][1], "fn": "failing", "cfg": {"pi": pi}, "timeout": 300 if q else 900})
     obs.append({"name": "conditional truth", "fn": "conditional", "cfg": {}, "timeout": 200})
+    obs.append({"name": ".f recursion keeps parameters and declared locals per level", "fn": "dotf_locals", "cfg": {}, "timeout": 200})
     obs.append({"name": "conditional chain :| (first true test wins, tests in order, one branch)", "fn": "cond_chain", "cfg": {}, "timeout": 200})
     return obs
